@@ -289,8 +289,8 @@ func genUndColor(g *vlib.G) {
 		if s.n == 0 {
 			return
 		}
-		// quick tier: the 6-node graphs with an even edge mask (a fixed half).
-		if s.n == 6 && !g.Thorough() && s.mask%2 == 1 {
+		// quick tier: the 6-node graphs whose edge mask is a multiple of 4 (a fixed quarter).
+		if s.n == 6 && !g.Thorough() && s.mask%4 != 0 {
 			return
 		}
 		plan := undPlan(g, &s)
@@ -347,9 +347,9 @@ func genUndColorExact(g *vlib.G) {
 		if s.n == 0 {
 			return
 		}
-		// quick tier, tomita configuration: up to 5 nodes (the 6-node graphs run
-		// in the default configuration; und-topo covers their cliques under tomita).
-		if s.n == 6 && tomita && !g.Thorough() {
+		// quick tier: the 6-node graphs with an even edge mask, default configuration
+		// only (und-topo covers the cliques of 6-node graphs under tomita).
+		if s.n == 6 && !g.Thorough() && (tomita || s.mask%2 == 1) {
 			return
 		}
 		plan := undPlan(g, &s)
